@@ -111,11 +111,20 @@ int main(int argc, char **argv)
 
     /* drawing half */
     for (int n = 0; n <= 3; n++) {
-        d_ctx c; c.nglyph = n; c.ndfmt = th ? 3 : 2; c.npos = (n == 3 && !th) ? 4 : D_NPOS;
+        d_ctx c; c.nglyph = n; c.ndfmt = th ? 3 : 2; c.npos = (n == 3 && !th) ? 4 : D_NPOS; c.allops = 0;
         int dims[12], nd = 0;
         dims[nd++] = D_NAPI; dims[nd++] = 6; dims[nd++] = D_NSRC; dims[nd++] = c.ndfmt; dims[nd++] = D_NOFF; dims[nd++] = D_NCLIP; dims[nd++] = n ? D_NCOMBO : 1;
         for (int i = 0; i < n; i++) dims[nd++] = c.npos;
         char nm[64]; snprintf(nm, sizeof nm, "draw-%dglyphs", n);
+        vf_space_run(nm, vf_product(dims, nd), d_case, &c);
+    }
+    /* every operator: no glyph, and one glyph at each position (blank masks and off-screen text make the operator's treatment of a transparent source visible) */
+    for (int n = 0; n <= 1; n++) {
+        d_ctx c; c.nglyph = n; c.ndfmt = 1; c.npos = D_NPOS; c.allops = 1;
+        int dims[12], nd = 0;
+        dims[nd++] = D_NAPI; dims[nd++] = D_NALLOPS; dims[nd++] = D_NSRC; dims[nd++] = c.ndfmt; dims[nd++] = D_NOFF; dims[nd++] = D_NCLIP; dims[nd++] = n ? D_NCOMBO : 1;
+        for (int i = 0; i < n; i++) dims[nd++] = c.npos;
+        char nm[64]; snprintf(nm, sizeof nm, "draw-all-operators-%dglyphs", n);
         vf_space_run(nm, vf_product(dims, nd), d_case, &c);
     }
     vf_space_run("draw-mask-format", 4 * 27, d_maskfmt_case, NULL);
